@@ -389,6 +389,35 @@ func main() {
 				return true
 			}, nil)
 
+			// wall clock seam: time.Now() -> verifrt.Now()
+			timeRewritten := false
+			astutil.Apply(f, func(c *astutil.Cursor) bool {
+				call, ok := c.Node().(*ast.CallExpr)
+				if !ok || len(call.Args) != 0 {
+					return true
+				}
+				sel, ok := call.Fun.(*ast.SelectorExpr)
+				if !ok || sel.Sel.Name != "Now" {
+					return true
+				}
+				id, ok := sel.X.(*ast.Ident)
+				if !ok {
+					return true
+				}
+				pn, ok := info.Uses[id].(*types.PkgName)
+				if !ok || pn.Imported().Path() != "time" {
+					return true
+				}
+				file, line := pos(call)
+				sites = append(sites, site{"time-now", file, line, "time.Now() -> verifrt.Now()"})
+				call.Fun = &ast.SelectorExpr{X: ast.NewIdent("verifrt"), Sel: ast.NewIdent("Now")}
+				needRT, changed, timeRewritten = true, true, true
+				return true
+			}, nil)
+			if timeRewritten && !astutil.UsesImport(f, "time") {
+				astutil.DeleteImport(p.Fset, f, "time")
+			}
+
 			// sync import redirect
 			for _, imp := range f.Imports {
 				if imp.Path.Value == `"sync/atomic"` && !strings.HasSuffix(rel, "peg.go") {
